@@ -12,7 +12,7 @@ import (
 func init() { Registry["C08"] = checkC08 }
 
 func checkC08(p *core.Prog, r *core.Report) {
-	r.Explanation = "Decides structural necessary conditions of clean-prefix recovery: (R1) the log readers (AofFile.ReadLock, ReadHeader, ReadLockData, ReadTail) never report success after a detected failure: no return of an error value that the path facts prove nil while another error was found non-nil, and ReadLock's success returns carry the full-record equality n == recordLen+2; (R2) ReadHeader succeeds only after n == 12, the magic and the version tests; opening for append truncates a file shorter than its 12-byte header before writing a new header; (R3) in LoadAofFile a failed value read returns the error without invoking the record callback for that record; the record's value blob is read before any skip of the record (so the sequential value file stays aligned); (R4) AofFile.Flush writes the record file before the value file on every path; (R5) value bytes are buffered (dwindex grows) only on paths where records are buffered too (windex > 0), because Close and the rotation path flush only when records are buffered. (R6) the readers never hand out the error of io.ReadFull / io.ReadAtLeast unmapped (a partly present item must read as io.EOF, the only value the loaders treat as end of log); (R7) an oversized value is written directly to the value file only with the record buffer empty. NOT decided: behaviour at each of the 64 residues, re-append alignment after a torn tail, a crash between the two writes, fsync timing - these need crash images."
+	r.Explanation = "Decides structural necessary conditions of clean-prefix recovery: (R1) the log readers (AofFile.ReadLock, ReadHeader, ReadLockData, ReadTail) never report success after a detected failure: no return of an error value that the path facts prove nil while another error was found non-nil, and ReadLock's success returns carry the full-record equality n == recordLen+2; (R2) ReadHeader succeeds only after n == 12, the magic and the version tests; opening for append truncates a file shorter than its 12-byte header before writing a new header; (R3) in LoadAofFile a failed value read returns the error without invoking the record callback for that record; the record's value blob is read before any skip of the record (so the sequential value file stays aligned); (R4) AofFile.Flush writes the record file before the value file on every path; (R5) value bytes are buffered (dwindex grows) only on paths where records are buffered too (windex > 0), because Close and the rotation path flush only when records are buffered. (R6) the readers never hand out the error of io.ReadFull / io.ReadAtLeast unmapped (a partly present item must read as io.EOF, the only value the loaders treat as end of log); (R7) an oversized value is written directly to the value file only with the record buffer empty. (R8) the sequential readers return a constructed (non-EOF) error only about an item they have read completely - a partly present header or record must read as io.EOF; (R9) opening the newest append file for append cuts it back to a whole number of records before anything is appended. NOT decided: behaviour at each of the 64 residues, alignment of the value file after a torn tail, a crash between the two writes, fsync timing - these need crash images."
 	r.Assumptions = []string{"Go type checker and go/ssa are correct for /repo", "bufio.Reader.Read returns (n>0, nil) or (0, err)"}
 	c08R1(p, r)
 	c08R2(p, r)
@@ -21,6 +21,8 @@ func checkC08(p *core.Prog, r *core.Report) {
 	c08R5(p, r)
 	c08R6(p, r)
 	c08R7(p, r)
+	c08R8(p, r)
+	c08R9(p, r)
 }
 
 func c08R1(p *core.Prog, r *core.Report) {
@@ -439,5 +441,166 @@ func c08R7(p *core.Prog, r *core.Report) {
 	}
 	if n == 0 {
 		r.Fail("C08/R7: no direct write to the value file found in WriteLockData")
+	}
+}
+
+// c08R8: the loaders treat io.EOF as "end of log" and every other error as
+// fatal (the server refuses to start). A log cut by a crash ends inside an
+// item - the header, a record, a value - so a reader may report a constructed
+// (hard) error only about an item whose bytes it has read completely; for an
+// item that is only partly there it must answer io.EOF.
+func c08R8(p *core.Prog, r *core.Report) {
+	const rule = "C08/R8"
+	r.Rule(rule, "the sequential log readers return a constructed (non-EOF) error after a read only when the item was read completely: the last read on the path is a successful io.ReadFull / io.ReadAtLeast, or its byte count was tested equal to a constant", 3)
+	for _, name := range []string{"server.(*AofFile).ReadHeader", "server.(*AofFile).ReadLock", "server.(*AofFile).ReadLockData"} {
+		fn := mustFunc(p, r, name)
+		if fn == nil {
+			continue
+		}
+		seen := 0
+		bad := map[string]bool{}
+		ex := core.NewExplorer(p, core.Hooks{
+			Track: func(x *core.X, a core.Atom) bool { return true },
+			Instr: func(x *core.X) {
+				ci, ok := x.Ins.(ssa.CallInstruction)
+				if !ok {
+					return
+				}
+				if _, isDefer := x.Ins.(*ssa.Defer); isDefer {
+					return
+				}
+				callee := ci.Common().StaticCallee()
+				nm := ""
+				if callee != nil {
+					nm = callee.Name()
+					if callee.Pkg != nil && callee.Pkg.Pkg.Path() == "io" && (nm == "ReadFull" || nm == "ReadAtLeast") {
+						x.Set("read", core.Plain(x.Canon(ci.Value()).S))
+						x.Set("full", "1")
+						return
+					}
+				} else if ci.Common().IsInvoke() {
+					nm = ci.Common().Method.Name()
+				}
+				if nm == "Read" && ci.Value() != nil {
+					if x.Get("read") == "" {
+						x.Set("first", core.Plain(x.Canon(ci.Value()).S))
+					}
+					x.Set("read", core.Plain(x.Canon(ci.Value()).S))
+					x.Set("full", "")
+				}
+			},
+			Exit: func(x *core.X, rets []core.Expr) {
+				if len(rets) != 1 || x.Get("read") == "" {
+					return
+				}
+				e := core.Plain(rets[0].S)
+				if !(strings.HasPrefix(e, "New(") || strings.HasPrefix(e, "Errorf(")) {
+					return
+				}
+				seen++
+				key := fmt.Sprintf("%s: hard error %s", name, strings.SplitN(e, "@", 2)[0])
+				complete := x.Get("full") == "1"
+				if !complete {
+					// the count of the (single) read tested equal to a constant
+					rd := x.Get("read")
+					if x.Get("first") == rd {
+						for h := range x.St.Hist {
+							hp := core.Plain(h)
+							if strings.HasPrefix(hp, rd+"#0 == ") {
+								if _, ok := core.ParseIntStr(strings.TrimPrefix(hp, rd+"#0 == ")); ok {
+									complete = true
+								}
+							}
+						}
+					}
+				}
+				if complete {
+					if !bad[key] {
+						r.Hold(rule, key, x.Pos(), "item completely read")
+					}
+				} else {
+					bad[key] = true
+					r.Violate(rule, key, x.Pos(), "a hard error is returned about an item that may be only partly present (the last read was a plain Read whose count was not established): a log cut by a crash inside this item makes the loader fail and the server refuses to start, instead of treating the cut as the end of the log", x.St.Trace)
+				}
+			},
+		})
+		ex.Run(fn, nil)
+		if ex.Imprecise != "" {
+			r.Fail("C08/R8 %s: %s", name, ex.Imprecise)
+		}
+		r.Stats["R8_"+fn.Name()] = seen
+	}
+}
+
+// c08R9: records are appended to the newest append file that was found at
+// start-up. If that file ends inside a record (the torn tail the loader has
+// just skipped), appending behind it shifts every later record off the 64-byte
+// grid and the next restart reads garbage. Opening for append must cut the
+// file back to a whole number of records first.
+func c08R9(p *core.Prog, r *core.Report) {
+	const rule = "C08/R9"
+	r.Rule(rule, "AofFile.Open in append mode keeps an existing file (size >= header) only after testing (size - header) % record length and truncating the remainder", 1)
+	fn := mustFunc(p, r, "server.(*AofFile).Open")
+	if fn == nil {
+		return
+	}
+	self := fn.Params[0].Name()
+	n := 0
+	ex := core.NewExplorer(p, core.Hooks{
+		Track: func(x *core.X, a core.Atom) bool {
+			s := core.Plain(a.String())
+			return strings.Contains(s, self+".size") || strings.Contains(s, " % ")
+		},
+		Instr: func(x *core.X) {
+			if !x.Top() {
+				return
+			}
+			if nm, _ := core.CallName(x.Ins); nm == "Truncate" {
+				x.Set("trunc", "1")
+			}
+			// the write buffer is set up last on the append arm: the point where the file is accepted
+			st, ok := x.Ins.(*ssa.Store)
+			if !ok {
+				return
+			}
+			if k, ok := storeKey(st.Addr); !ok || k.Field != "wbuf" || k.Type != "server.AofFile" {
+				return
+			}
+			kept := false
+			aligned, remainder := false, false
+			for h := range x.St.Hist {
+				hp := core.Plain(h)
+				if hp == "12 <= "+self+".size" || hp == self+".size >= 12" {
+					kept = true
+				}
+				if strings.Contains(hp, " % 64") {
+					if strings.HasSuffix(hp, " == 0") {
+						aligned = true
+					} else {
+						remainder = true
+					}
+				}
+			}
+			if !kept {
+				return
+			}
+			n++
+			key := "server.(*AofFile).Open: existing file kept for append"
+			switch {
+			case aligned:
+				r.Hold(rule, key+" (aligned)", x.Pos(), "whole number of records")
+			case remainder && x.Get("trunc") == "1":
+				r.Hold(rule, key+" (remainder cut)", x.Pos(), "torn tail truncated before appending")
+			default:
+				r.Violate(rule, key, x.Pos(), "an existing append file is kept for appending without bringing its length back to a whole number of 64-byte records: after a crash that cut the last record, the records written after the restart sit off the record grid and the following restart does not recover them", x.St.Trace)
+			}
+		},
+	})
+	ex.Run(fn, nil)
+	if ex.Imprecise != "" {
+		r.Fail("C08/R9: %s", ex.Imprecise)
+	}
+	if n == 0 {
+		r.Fail("C08/R9: the append arm of AofFile.Open that keeps an existing file was not found")
 	}
 }
